@@ -6,6 +6,7 @@ import RedisVerif.Model.SimMore
 import RedisVerif.Lemmas.SimMore
 import RedisVerif.Model.SimMulti
 import RedisVerif.Model.SimBuggify
+import RedisVerif.Lemmas.NMap
 
 /-!
 # C20 — Simulation is reproducible: same seed, same trace, same verdict
@@ -1151,6 +1152,60 @@ theorem f64_mul_table :
     f64Mul (F64.ofBits 0x7FEFFFFFFFFFFFFF) (F64.ofBits 0x4000000000000000) = bitsInf ∧
     f64Mul (F64.ofBits 0) (F64.ofBits bitsInf) = bitsNaN := by
   decide
+
+
+/-! ### `FaultConfig::probabilities` is a `HashMap` that is only inserted into and looked up -/
+
+theorem faultcfg_set_comm (c : FaultCfg) (h : NMap.WF c.probs) (k1 v1 k2 v2 : Nat) (hk : k1 ≠ k2) :
+    (c.set k1 v1).set k2 v2 = (c.set k2 v2).set k1 v1 := by
+  simp only [FaultCfg.set]
+  congr 1
+  apply NMap.ext (NMap.wf_insert (NMap.wf_insert h)) (NMap.wf_insert (NMap.wf_insert h))
+  intro k
+  simp only [NMap.get_insert]
+  by_cases h1 : k = k1 <;> by_cases h2 : k = k2 <;> simp_all
+
+theorem faultcfg_set_wf (c : FaultCfg) (h : NMap.WF c.probs) (k v : Nat) : NMap.WF (c.set k v).probs :=
+  NMap.wf_insert h
+
+theorem faultcfg_setAll_perm (l l' : List (Nat × Nat)) (hp : l.Perm l') :
+    (l.map (·.1)).Nodup → ∀ (c : FaultCfg), NMap.WF c.probs → c.setAll l = c.setAll l' := by
+  induction hp with
+  | nil => intro _ c _; rfl
+  | cons x _ ih =>
+    intro hn c hc
+    simp only [List.map_cons, List.nodup_cons] at hn
+    simp only [FaultCfg.setAll, List.foldl_cons]
+    exact ih hn.2 (c.set x.1 x.2) (faultcfg_set_wf c hc _ _)
+  | swap x y l =>
+    intro hn c hc
+    simp only [List.map_cons, List.nodup_cons, List.mem_cons, not_or] at hn
+    simp only [FaultCfg.setAll, List.foldl_cons]
+    rw [faultcfg_set_comm c hc y.1 y.2 x.1 x.2 hn.1.1]
+  | trans h1 _ ih1 ih2 =>
+    intro hn c hc
+    rw [ih1 hn c hc]
+    exact ih2 (((h1.map (·.1)).nodup_iff).mp hn) c hc
+
+/-- full strength: a configuration built by `set` calls on DISTINCT faults does not depend on the
+    order of the calls — the order of the lines of a preset constructor, or the insertion order of
+    the `HashMap`, cannot reach any `get`, hence no decision -/
+def C20_fault_config_set_order_independent : Prop :=
+  ∀ (l l' : List (Nat × Nat)), l.Perm l' → (l.map (·.1)).Nodup → ∀ (c : FaultCfg), NMap.WF c.probs →
+    c.setAll l = c.setAll l'
+
+theorem fault_config_set_order_independent : C20_fault_config_set_order_independent :=
+  fun l l' hp hn c hc => faultcfg_setAll_perm l l' hp hn c hc
+
+/-- non-vacuity: the three presets set pairwise distinct faults; `chaos` built backwards is `chaos` -/
+example : (calmSets.map (·.1)).Nodup ∧ (moderateSets.map (·.1)).Nodup ∧ (chaosSets.map (·.1)).Nodup ∧
+    ({ FaultCfg.new with mult := chaosMult }).setAll chaosSets.reverse = FaultCfg.chaos := by
+  refine ⟨by decide, by decide, by decide, ?_⟩
+  exact (faultcfg_setAll_perm _ _ (List.reverse_perm chaosSets) (by decide) _ (by decide)).trans rfl
+
+/-- with a repeated fault the LAST `set` wins: there the order matters, as it must -/
+example : (FaultCfg.new.setAll [(0, 0x3FE0000000000000), (0, 0x3FF0000000000000)]).get 0 = 0x3FF0000000000000 ∧
+    (FaultCfg.new.setAll [(0, 0x3FF0000000000000), (0, 0x3FE0000000000000)]).get 0 = 0x3FE0000000000000 := by decide
 
 end C20
 end RedisVerif
